@@ -164,11 +164,19 @@ Definition d_nth_of_year (self : pdate) (nth wd : Z) : result (option pdate) :=
   if negb (year =? d_year dt) then Ok None
   else bind (date_set_ymd self (d_year self) (d_month dt) (d_day dt)) (fun r => Ok (Some r)))).
 
-(* nth_of: `if not dt: raise PendulumException` (a date object is always truthy) *)
+(* nth_of:
+     try: dt = getattr(self, f"_nth_of_{unit}")(nth, day_of_week)
+     except OverflowError: dt = None        # the loop walked past 9999-12-31: no such occurrence in the unit
+   every other exception of the helper propagates; the unit test (`raise ValueError`) stands before the `try` and the
+   helpers never raise OverflowError for an unknown unit, so it may be modelled inside *)
+Definition overflow_to_none {A : Type} (r : result (option A)) : result (option A) :=
+  match r with Raise E_OverflowError => Ok None | _ => r end.
+
+(* `if not dt: raise PendulumException` (a date object is always truthy) *)
 Definition d_nth_of (u : Z) (self : pdate) (nth wd : Z) : result pdate :=
-  let r := if u =? U_MONTH then d_nth_of_month self nth wd
-           else if u =? U_QUARTER then d_nth_of_quarter self nth wd
-           else if u =? U_YEAR then d_nth_of_year self nth wd
+  let r := if u =? U_MONTH then overflow_to_none (d_nth_of_month self nth wd)
+           else if u =? U_QUARTER then overflow_to_none (d_nth_of_quarter self nth wd)
+           else if u =? U_YEAR then overflow_to_none (d_nth_of_year self nth wd)
            else Raise E_ValueError in
   bind r (fun o => match o with Some d => Ok d | None => Raise E_PendulumException end).
 
@@ -298,10 +306,10 @@ Definition t_nth_of_year (self : pdt) (nth wd : Z) : result (option pdt) :=
   else bind (t_on self (d_year (t_date self)) (d_month (t_date dt)) (d_day (t_date dt))) (fun r =>
        bind (t_start_of_day r) (fun r' => Ok (Some r'))))).
 
-(* `if not dt: raise PendulumException` (a datetime object is always truthy) *)
+(* the same `try … except OverflowError: dt = None`, then `if not dt: raise PendulumException` (a datetime object is always truthy) *)
 Definition t_nth_of (u : Z) (self : pdt) (nth wd : Z) : result pdt :=
-  let r := if u =? U_MONTH then t_nth_of_month self nth wd
-           else if u =? U_QUARTER then t_nth_of_quarter self nth wd
-           else if u =? U_YEAR then t_nth_of_year self nth wd
+  let r := if u =? U_MONTH then overflow_to_none (t_nth_of_month self nth wd)
+           else if u =? U_QUARTER then overflow_to_none (t_nth_of_quarter self nth wd)
+           else if u =? U_YEAR then overflow_to_none (t_nth_of_year self nth wd)
            else Raise E_ValueError in
   bind r (fun o => match o with Some d => Ok d | None => Raise E_PendulumException end).
